@@ -154,6 +154,16 @@ def gen_hostile(ctx):
                 items = [{"p": b"other".hex(), "n": 3, "dir": False, "id": b"1122".hex()}] + ([good, bad] if later else [bad, good])
                 cases.append({"mode": "hostile", "name": f"aimed-dup-id-{'later' if later else 'earlier'}-{'noroot' if noroot else 'root'}", "root": b"tree".hex(), "items": items,
                               "begins": [{"p": b"dup.bin".hex(), "n": 70, "chunk": 64}], "noroot": noroot, "resume": True, "_kind": "dup-path-hostile-id"})
+    # aimed: an id that climbs out of the resume-data directory on every kind of item - an empty file, a one-byte file, a
+    # directory - with resume on (the receiver derives a metadata path from the id of every file it begins)
+    for noroot in (True, False):
+        for hid in ESCAPING_ID:
+            for n, isdir in ((0, False), (1, False), (0, True)):
+                it = {"p": b"victim-item".hex(), "n": n, "dir": isdir, "id": hid.hex()}
+                items = [{"p": b"other".hex(), "n": 3, "dir": False, "id": b"1122".hex()}, it]
+                begins = [] if isdir else [{"p": b"victim-item".hex(), "n": n, "chunk": 64}]
+                cases.append({"mode": "hostile", "name": f"aimed-id-on-{'dir' if isdir else 'file%d' % n}-{'noroot' if noroot else 'root'}", "root": b"tree".hex(), "items": items,
+                              "begins": begins, "noroot": noroot, "resume": True, "_kind": "id-escape-any-item"})
     return cases
 
 
